@@ -252,6 +252,27 @@ def _is_ref_read(x: ast.AST) -> bool:
     return False
 
 
+def _ref_key(e: ast.AST | None) -> str | None:
+    """Which ref an expression names, as far as the text says: 'HEAD' for the HEAD constant, the text of an attribute / call
+    expression otherwise, None for a plain variable (may name any ref)."""
+    if e is None or isinstance(e, ast.Name) and e.id != "HEADREF":
+        return None
+    t = norm(e)
+    if t in ("HEADREF", "b'HEAD'", "Ref(b'HEAD')", "Ref(HEADREF)"):
+        return "HEAD"
+    return t
+
+
+def _read_key(x: ast.AST) -> str | None:
+    if isinstance(x, ast.Subscript):
+        return _ref_key(x.slice)
+    if isinstance(x, ast.Call):
+        if (dotted(x.func) or "").split(".")[-1] == "head":
+            return "HEAD"
+        return _ref_key(x.args[0]) if x.args else None
+    return None
+
+
 class Labels:
     """Read-site labels of an expression, through reaching definitions."""
 
@@ -315,6 +336,10 @@ def r08_3(prog: Program, rep):
                 if cas_nodes[0] not in reach(g, [an]):
                     continue
                 la = L.of(val, an)
+                # only reads of the ref that the compare-and-swap updates matter: parents taken from ANOTHER ref (the stash commit's
+                # first parent is HEAD, the ref updated is refs/stash) cannot lose an update of this one
+                ck = _ref_key(arg_of(s.call, 0, "name"))
+                la = frozenset(x for x in la if ck is None or _read_key(x) is None or _read_key(x) == ck)
                 if not la:
                     continue
                 compared += 1
